@@ -369,13 +369,17 @@ def mutations(spec, only_names=False):
                 s = _copy(spec)
                 s[side][k][0] = bad
                 add(s, "bad-array-name", where=side[:-1] + "put")
+            if side == "outs" and k > 0:
+                continue
             for pos, ax in enumerate(axes):
-                if ax is None:
-                    continue
-                for b in BAD_IDX_ONCE:
-                    s = _copy(spec)
-                    s[side][k][1][pos] = b.format(ax)
-                    add(s, "bad-index-name-once", where=side[:-1] + "put")
+                if ax is not None and (side == "outs") == (ax not in p["used"]):
+                    # one occurrence: the first one of a used index in the inputs / an internal index in the first output
+                    if any(ax in a2 for _, a2 in spec[side][:k]):
+                        continue
+                    for b in BAD_IDX_ONCE:
+                        s = _copy(spec)
+                        s[side][k][1][pos] = b.format(ax)
+                        add(s, "bad-index-name-once", where=side[:-1] + "put")
     for ax in sorted({a for _, axs in spec["ins"] + spec["outs"] for a in axs if a is not None}):
         for b in BAD_IDX:
             s = _copy(spec)
@@ -652,7 +656,7 @@ def check_index_naming(s2):
     out = []
     if not ok:
         out.append(({"kind": "value-mismatch", "check": "roundtrip", "ctx": "index-naming"}, f"round trip of {render(s2)!r} failed"))
-    v, n = denote_generic(m, s2, "index-naming", {"i": 2, "j": 3, "k": 3, "l": 2})
+    v, n = denote_generic(m, s2, "index-naming", {"i": 2, "j": 3, "k": 2, "l": 2})
     return out + v, n + 2
 
 
@@ -736,7 +740,7 @@ STAGES = ("print-parse", "malformed", "shape", "keys", "rename-add_axes", "index
 
 
 def plan(tier, seed):
-    nchunks = {"quick": (40, 4), "thorough": (96, 96)}[tier]
+    nchunks = {"quick": (40, 8), "thorough": (64, 192)}[tier]
     units = []
     for st in STAGES:
         us = [(st, (st, tier, f, c, nc)) for f, nc in enumerate(nchunks) for c in range(nc)]
@@ -745,16 +749,19 @@ def plan(tier, seed):
     return units
 
 
-def _sweep_sizes(tier, S, n_out):
-    """quick: the sweeps of two-output specs use sizes 1..2 (shape()/keys never look at the second output)"""
-    return 2 if (tier == "quick" and n_out == 2) else S
+def _sweep_sizes(tier, S, n_out, total_rank=0):
+    """size bound of the shape / key sweeps. quick: 1..2 for two-output specs (shape()/keys never look at the second
+    output) and for shape tuples of specs whose inputs have 6 axes in total; thorough: one less for two-output specs"""
+    if tier == "quick":
+        return 2 if (n_out == 2 or total_rank >= 6) else S
+    return S - 1 if n_out == 2 else S
 
 
 def run_unit(unit):  # noqa: C901, PLR0912, PLR0915
     stage, tier, f, chunk, nchunks = unit
     _, structs, S = families(tier)[f]
     acc = Acc()
-    mine = structs[chunk::nchunks]
+    mine = structs[chunk::nchunks][::-1]  # cheapest first, so that the examples kept for a signature are small
 
     def report(case, vs):
         for sig, text in vs:
@@ -763,6 +770,7 @@ def run_unit(unit):  # noqa: C901, PLR0912, PLR0915
     for ins in mine:
         menu = out_axes_menu(ins)
         n_used = len({a for ax in ins for a in ax if a})
+        total_rank = sum(len(ax) for ax in ins)
         for oax in menu:
             if stage == "print-parse":
                 for n_out in (1, 2):
@@ -784,6 +792,9 @@ def run_unit(unit):  # noqa: C901, PLR0912, PLR0915
                         acc.stratum(f"spec:rank-out={len(oax)}")
                         acc.stratum("ws-variants", len(WS_MUST))
             elif stage == "malformed":
+                if tier == "quick" and total_rank > 5:
+                    acc.stratum("malformed:skipped-in-quick(6-input-axes)")
+                    continue
                 for n_out in (1, 2):
                     for style in (0, 2):
                         spec = make_spec(ins, oax, n_out, style)
@@ -812,7 +823,7 @@ def run_unit(unit):  # noqa: C901, PLR0912, PLR0915
                                     acc.outcome(f"unconstrained:{mop}:rejected:{type(e).__name__}")
             elif stage == "shape":
                 for n_out in (1, 2):
-                    _shape_sweep(acc, make_spec(ins, oax, n_out, 0), _sweep_sizes(tier, S, n_out))
+                    _shape_sweep(acc, make_spec(ins, oax, n_out, 0), _sweep_sizes(tier, S, n_out, total_rank))
             elif stage == "keys":
                 for n_out in (1, 2):
                     spec = make_spec(ins, oax, n_out, 0)
